@@ -1313,6 +1313,19 @@ impl Block {
                     fee_transaction_index = i as u64;
                 }
                 TransactionType::GoldenTicket => {
+                    // the payload is decoded with GoldenTicket::deserialize_from_net, which
+                    // only accepts exactly target + random + public key
+                    if transaction.data.len() != 97 {
+                        warn!(
+                            "golden ticket in block {} has a payload of {} bytes",
+                            self.id,
+                            transaction.data.len()
+                        );
+                        return Err(Error::new(
+                            ErrorKind::InvalidData,
+                            "golden ticket payload has invalid length",
+                        ));
+                    }
                     has_golden_ticket = true;
                     golden_ticket_index = i as u64;
                 }
